@@ -17,10 +17,10 @@ for pid in ids:
         f = json.loads(frag.read_text())
         c = {
             "property_id": pid,
-            "quick_cmd": f"./check {pid} --tier quick",
-            "thorough_cmd": f"./check {pid} --tier thorough",
+            "quick_cmd": f"/verif/check {pid} --tier quick",
+            "thorough_cmd": f"/verif/check {pid} --tier thorough",
             "evidence_file": f"/verif/evidence/{pid}.json",
-            "replay_cmd_template": f"./check {pid} --replay {{path}}",
+            "replay_cmd_template": f"/verif/check {pid} --replay {{path}}",
             "engine": "coq-proof+correspondence",
             "level_claimed": f["level_claimed"],
             "level_note": f["level_note"],
